@@ -2203,10 +2203,13 @@ class tensor:
                 idx = [slice(None, currentShape) for currentShape in self.shape]
                 idx.extend([0] * (len(newsiz) - self.ndims))
                 newData[tuple(idx)] = self.data
+            # Assign before committing: a value of the wrong size raises here
+            # and leaves the tensor as it was
+            newData[key] = value
             self.data = newData
-
             self.shape = tuple(newsiz)
-        self.data[key] = value
+        else:
+            self.data[key] = value
 
     def _set_subscripts(self, key, value):
         # Extract array of subscripts
